@@ -744,7 +744,10 @@ func (rm RoundingMode) round(shift, neg bool, sig uint128, exp int16, trunc int8
 							exp -= 19
 						}
 
-						for exp > minBiasedExponent && sig[1] <= 0x0002_7fff_ffff_ffff/10 {
+						// The significand can take another digit as long as
+						// sig*10 - 1 still fits, which includes sig == 2^110
+						// (2^110*10 - 1 is the largest significand).
+						for exp > minBiasedExponent && (sig[1] <= 0x0002_7fff_ffff_ffff/10 || sig == (uint128{0, 0x0002_7fff_ffff_ffff/10 + 1})) {
 							sig = sig.mul64(10)
 							exp--
 						}
